@@ -39,6 +39,10 @@
 (*          buffer (early return), (b) inside read(amt)'s fill loop (stale flush_decoder), (c) by   *)
 (*          stream() finding the file already closed: an incomplete zstd stream then ends normally   *)
 (*      F3  MultiDecoder.flush only flushes the first-listed decoder (stacked zstd never checked)   *)
+(*      PiecewiseReadHidesCut  (never in the code; a seeded mutant class) _fp_read's piecewise loop  *)
+(*          (fp.read(max_chunk_amt) until b"") is also taken by read() when more than                *)
+(*          max_chunk_amt bytes of Content-Length are outstanding on a LARGE body: a short body is   *)
+(*          then no error for http.client and read() returns the cut body as complete                *)
 (*      F4  DecodeError is raised outside _error_catcher: the connection is not closed (and was     *)
 (*          already handed back to the pool when the body had been received completely)             *)
 (*  - Latitude built into Next (see ReadsOk / GenOk): the six read calls and, on bodies that are    *)
@@ -46,7 +50,7 @@
 (*    iteration consume a body on their own.                                                        *)
 EXTENDS BodyRules, TLC
 
-CONSTANTS Scenarios,      \* set of [framing, coding, stacked, decode, enc, chunks]
+CONSTANTS Scenarios,      \* set of [framing, coding, stacked, decode, enc, chunks, large]
           DamageKinds,    \* subset of {"none","cut","badsize","negsize","emptysize","corrupt"}
           Lag,            \* decoder tail bound (units)
           Amts,           \* amounts n for read(n)
@@ -157,9 +161,16 @@ HReadPlain(st, amt) ==
         hl   == IF st.hlen = None THEN None ELSE st.hlen - got
     IN { Res([Adv(st, got) EXCEPT !.hlen = hl, !.fpc = (got = 0 /\ want > 0) \/ hl = 0], Take(st, got), "") }
 
+\* Size class: a scenario with sc.large stands for a body of more than 1 MiB, one unit = 2**18 bytes, so that
+\* "length_remaining > max_chunk_amt (2**20)" reads "more than PieceUnits units outstanding".
+PieceUnits == 4
 \* HTTPResponse.read(), not chunked: _safe_read(length) raises IncompleteRead on a short body
 HReadAllPlain(st) ==
-    IF st.hlen # None /\ Avail(st) < st.hlen
+    IF Has("PiecewiseReadHidesCut") /\ sc.large /\ st.lrem # None /\ st.lrem > PieceUnits
+    THEN \* the piecewise loop asks for max_chunk_amt at a time until b"" comes back: nothing notices a short body
+         LET got == Min(st.hlen, Avail(st)) IN
+         { Res([Adv(st, got) EXCEPT !.hlen = @ - got, !.fpc = TRUE], Take(st, got), "") }
+    ELSE IF st.hlen # None /\ Avail(st) < st.hlen
     THEN { Res([Adv(st, Avail(st)) EXCEPT !.fpc = TRUE], <<>>, "Incomplete") }
     ELSE LET got == IF st.hlen = None THEN Avail(st) ELSE st.hlen IN
          { Res([Adv(st, got) EXCEPT !.hlen = IF @ = None THEN None ELSE 0, !.fpc = TRUE], Take(st, got), "") }
